@@ -670,18 +670,15 @@ where
         _session: &mut Session,
     ) -> io::Result<Self> {
         use bitvec::{mem::bits_of, vec::BitVec};
-        use std::io::Write;
 
         let len = decoder.read_usize()?;
         let number_of_bytes = len.div_ceil(bits_of::<u8>());
         let byte_vec = decoder.read_raw_bytes(number_of_bytes)?;
-        let mut vec = BitVec::new(); // Write will resize as needed.
-        let written = vec.write(byte_vec.as_slice())?;
-        assert!(
-            written == number_of_bytes,
-            "Should write the same number of bytes ({written}) as had been stored ({number_of_bytes})"
-        );
-        vec.truncate(len); // Ensure trailing bits aren't added.
+        // bit `i` was stored in bit `i % 8` of byte `i / 8`
+        let mut vec = BitVec::with_capacity(len);
+        for i in 0..len {
+            vec.push(byte_vec[i / 8] >> (i % 8) & 1 == 1);
+        }
         Ok(vec)
     }
 }
